@@ -112,6 +112,75 @@ theorem C17_pickup (s : Srv) (i j : Nat) (hi : s.active.contains i = true) (hj :
         | cons k rest => exact ih _ h
   exact keep _ _ (by simp [served])
 
+/-- the accept loop has nothing left to do: either a connection is held and no permit is free, or nobody waits -/
+def Srv.Stuck (s : Srv) : Prop :=
+  (s.holding.isSome = true ∧ s.permits = 0) ∨ (s.holding = none ∧ s.backlog = [])
+
+/-- the fuel given to `settle` is enough: the loop always runs to the point where it has to wait -/
+theorem settle_stuck (fuel : Nat) (s : Srv)
+    (h : 2 * s.backlog.length + (if s.holding.isSome then 1 else 0) < fuel) : (settle fuel s).Stuck := by
+  induction fuel generalizing s with
+  | zero => omega
+  | succ f ih =>
+    unfold settle
+    cases hh : s.holding with
+    | some j =>
+      simp only [hh, Option.isSome_some, if_true] at h
+      simp only
+      by_cases hp : s.permits > 0
+      · simp only [hp, if_true]
+        by_cases hg : s.gone.contains j = true
+        · simp only [hg, if_true]
+          exact ih _ (by simp; omega)
+        · simp only [hg, Bool.false_eq_true, if_false]
+          exact ih _ (by simp; omega)
+      · simp only [hp, if_false]
+        exact Or.inl ⟨by simp [hh], by omega⟩
+    | none =>
+      simp only [hh, Option.isSome_none, Bool.false_eq_true, if_false] at h
+      simp only
+      cases hb : s.backlog with
+      | nil => exact Or.inr ⟨hh, hb⟩
+      | cons j rest =>
+        simp only [hb, List.length_cons] at h
+        exact ih _ (by simp; omega)
+
+/-- **work conserving**: after any history, nobody waits (held or in the backlog) while a permit is free — a
+    connection is refused service only because `limit` others are being served -/
+theorem C17_work_conserving (limit : Nat) (es : List SEv) : (run (Srv.init limit) es).Stuck := by
+  have hgen : ∀ (s : Srv), s.Stuck → (run s es).Stuck := by
+    induction es with
+    | nil => intro s h; exact h
+    | cons e rest ih =>
+      intro s h
+      simp only [run, List.foldl_cons]
+      apply ih
+      cases e with
+      | connect i =>
+        simp only [step]
+        apply settle_stuck
+        simp only [List.length_append, List.length_cons, List.length_nil]
+        split <;> omega
+      | finish i =>
+        unfold step
+        by_cases ha : s.active.contains i = true
+        · simp only [ha, if_true]
+          apply settle_stuck
+          simp only
+          split <;> omega
+        · simp only [ha, Bool.false_eq_true, if_false]
+          split
+          · exact h
+          · exact h
+  exact hgen _ (Or.inr ⟨rfl, rfl⟩)
+
+/-- spelled out: a free permit means nobody is waiting -/
+theorem C17_free_permit_nobody_waits (limit : Nat) (es : List SEv) (hp : (run (Srv.init limit) es).permits > 0) :
+    (run (Srv.init limit) es).holding = none ∧ (run (Srv.init limit) es).backlog = [] := by
+  rcases C17_work_conserving limit es with ⟨_, h0⟩ | h
+  · omega
+  · exact h
+
 /-- non-vacuity and an end-to-end instance: limit 1, three connections, the first two end -/
 example : (run (Srv.init 1) [.connect 0, .connect 1, .connect 2, .finish 0, .finish 1]).served = [2] := by decide
 
@@ -128,3 +197,6 @@ end Memc
 #print axioms Memc.C17_fresh_limit_again
 #print axioms Memc.C17_pickup
 #print axioms Memc.C17_config_total_limit
+#print axioms Memc.settle_stuck
+#print axioms Memc.C17_work_conserving
+#print axioms Memc.C17_free_permit_nobody_waits
